@@ -589,9 +589,117 @@ pub fn run_c13(tier: Tier, rep: &mut Report) {
             rep.viols.extend(v);
         }
     }
+    c13_history_independence(tier, rep);
     rep.stats.exhaustive = true;
     rep.require_class("c13:both-ok");
     rep.require_class("c13:both-err");
+    rep.require_class("c13:pair:second-ok");
+    rep.require_class("c13:pair:second-err");
+}
+
+/// "Consecutive records decode to the same records one would get individually": for every ordered
+/// pair (A, B) of a pool of valid records and tampered copies of them, decoding A and then B on one
+/// (fresh) thread gives for B exactly the outcome of decoding B alone on a fresh thread; the same
+/// for [A, B] as one stream and as an RLP list.
+fn c13_history_independence(tier: Tier, rep: &mut Report) {
+    let seeds = seed_records(tier);
+    let mut pool: Vec<(String, Vec<u8>)> = vec![];
+    for (s, b) in &seeds {
+        pool.push((format!("{}/seed", s.label), b.clone()));
+        // tampered copy: same signature, sequence number and key, one content byte changed
+        let mut t = b.clone();
+        let n = t.len();
+        t[n - 1] ^= 0x01;
+        pool.push((format!("{}/last-byte-flipped", s.label), t));
+        // same content re-signed by the other key of the scheme (valid structure, invalid signature)
+        let other = match s.signer {
+            Signer::Secp(i) => Signer::Secp(if i == 0 { 1 } else { 0 }),
+            Signer::Ed(i) => Signer::Ed(if i == 0 { 1 } else { 0 }),
+        };
+        let sig = other.sign(&rlp::enc_list(&s.items));
+        pool.push((format!("{}/signed-by-other-key", s.label), render(&sig, &s.items, Outer::Canonical)));
+    }
+    let kts: Vec<KeyType> = KeyType::ALL.iter().cloned().filter(|k| decode_kt(*k, &[]).is_some()).collect();
+    // alone-outcomes, each on a fresh thread
+    fn fresh<T: Send + 'static>(f: impl FnOnce() -> T + Send + 'static) -> T {
+        std::thread::spawn(f).join().expect("worker thread")
+    }
+    type Out = Option<(Obs, usize)>;
+    let simplify = |r: Option<Result<Result<(Obs, usize), String>, String>>| -> Result<Out, String> {
+        match r {
+            Some(Ok(Ok(x))) => Ok(Some(x)),
+            Some(Ok(Err(_))) => Ok(None),
+            Some(Err(p)) => Err(p),
+            None => Ok(None),
+        }
+    };
+    let mut viols: Vec<Viol> = vec![];
+    let mut panics: Vec<Viol> = vec![];
+    let mut n = 0u64;
+    for &kt in &kts {
+        let alone: Vec<Result<Out, String>> = pool
+            .iter()
+            .map(|(_, b)| {
+                let b = b.clone();
+                simplify(fresh(move || decode_kt(kt, &b)))
+            })
+            .collect();
+        let idx: Vec<(usize, usize)> = (0..pool.len()).flat_map(|i| (0..pool.len()).map(move |j| (i, j))).collect();
+        let res: Vec<(usize, usize, Result<Out, String>, Option<bool>)> = idx
+            .par_iter()
+            .map(|&(i, j)| {
+                let (a, b) = (pool[i].1.clone(), pool[j].1.clone());
+                let (second, list_ok) = fresh(move || {
+                    let _first = decode_kt(kt, &a);
+                    let second = decode_kt(kt, &b);
+                    // and as an RLP list [A, B]
+                    let mut payload = a.clone();
+                    payload.extend_from_slice(&b);
+                    let l = decode_list_kt(kt, &rlp::enc_list_payload(&payload));
+                    let list_ok = match l {
+                        Some(Ok(Ok(_))) => Some(true),
+                        Some(Ok(Err(_))) => Some(false),
+                        _ => None,
+                    };
+                    (second, list_ok)
+                });
+                (i, j, simplify(second), list_ok)
+            })
+            .collect();
+        for (i, j, second, list_ok) in res {
+            n += 1;
+            let mut bad = |clause: &str| {
+                viols.push(Viol {
+                    prop: "C13",
+                    sig: format!("C13|decode<{}>|after another record|{clause}", kt.name()),
+                    what: format!("decode::<{}> of [{}] right after [{}]: {clause}", kt.name(), pool[j].0, pool[i].0),
+                    rank: 2,
+                    replay: json!({"engine":"pair-history","key_type":kt.name(),"first_hex":hex::encode(&pool[i].1),"second_hex":hex::encode(&pool[j].1),"clause":clause}),
+                });
+            };
+            match (&alone[j], &second) {
+                (Ok(a), Ok(s)) => {
+                    rep.stats.class(if s.is_some() { "c13:pair:second-ok" } else { "c13:pair:second-err" });
+                    if a.is_some() != s.is_some() {
+                        bad(if s.is_some() { "a record that is rejected alone is accepted when it follows another record" } else { "a record that is accepted alone is rejected when it follows another record" });
+                    } else if a != s {
+                        bad("the record decoded after another record differs from the record decoded alone");
+                    }
+                }
+                (_, Err(p)) | (Err(p), _) => panics.push(Viol { prop: "C03", sig: format!("C03|decode<{}>|after another record|panic", kt.name()), what: p.clone(), rank: 2, replay: json!({"engine":"pair-history","first_hex":hex::encode(&pool[i].1),"second_hex":hex::encode(&pool[j].1)}) }),
+            }
+            if let (Ok(ai), Ok(aj), Some(l)) = (&alone[i], &alone[j], list_ok) {
+                let want = ai.is_some() && aj.is_some();
+                if l != want {
+                    bad(if l { "an RLP list holding a record that is rejected alone decodes" } else { "an RLP list of two records that are accepted alone fails to decode" });
+                }
+            }
+        }
+    }
+    rep.stats.transitions += n;
+    rep.stats.class_n("c13:ordered-pairs", n);
+    rep.viols.extend(viols);
+    rep.viols.extend(panics);
 }
 
 fn suffix_class(label: &str, total: usize) -> String {
@@ -731,6 +839,37 @@ pub fn run_c03_sweeps(tier: Tier, rep: &mut Report) {
             });
         }
     }
+    // multi-byte characters straddling every byte offset 0..=8 (char-boundary arithmetic in the text parser)
+    let mut straddle: Vec<String> = vec![];
+    for k in 0..=8usize {
+        for mb in ["é", "€", "😀", "：", "\u{feff}"] {
+            for pre in ["a", "enr:", "enr", "en", "e", "-"] {
+                let mut t: String = pre.chars().cycle().take(k).collect();
+                if pre.len() > 1 {
+                    t = pre[..k.min(pre.len())].to_string();
+                }
+                for tail in ["", "A", "AA", "AAA", "-_8"] {
+                    straddle.push(format!("{t}{mb}{tail}"));
+                    straddle.push(format!("{t}{mb}{mb}{tail}"));
+                }
+            }
+        }
+    }
+    straddle.sort();
+    straddle.dedup();
+    for t in &straddle {
+        for (l, p) in sweep_text(t) {
+            rep.viols.push(Viol {
+                prop: "C03",
+                sig: format!("C03|{l}|text with a multi-byte character|panic"),
+                what: format!("{l} panics on {t:?}: {p}"),
+                rank: 1,
+                replay: json!({"engine":"sweep","text":t,"call":l}),
+            });
+        }
+    }
+    tcount += straddle.len() as u64;
+    rep.stats.class_n("c03:texts-multibyte", straddle.len() as u64);
     rep.stats.class_n("c03:texts", tcount);
     rep.stats.states += tcount;
     rep.stats.transitions += tcount * 9;
